@@ -18,7 +18,8 @@ type MS struct {
 type CtxVal struct {
 	ms      *MS
 	height  *T // BV64 (int64)
-	timeNs  *T // BV64 unix nanos
+	timeSec  *T // BV64 unix seconds
+	timeNsec *T // BV64 nanoseconds within the second
 	chainID *T
 	gas     Value // gas meter object (model-defined) or nil
 	flags   map[string]*T
@@ -180,7 +181,7 @@ func (e *Engine) ctxMethod(c *CtxVal, name string, args []Value) Value {
 	case "Err":
 		return nil
 	case "Deadline":
-		return Tuple{&TimeVal{Ns: BVConst(0, 64)}, tFalse}
+		return Tuple{&TimeVal{Sec: BVConst(0, 64), Nsec: BVConst(0, 64)}, tFalse}
 	}
 	panic(inconclusive{"context method " + name})
 }
@@ -202,9 +203,10 @@ func init() {
 		w := e.world
 		name := e.freshName("ctx")
 		h := Var(name+".height", BVS(64))
-		t := Var(name+".timeNs", BVS(64))
-		// block height and time are positive int64 values
-		e.pc = append(e.pc, BVCmp("bvsgt", h, BVConst(0, 64)), BVCmp("bvsge", t, BVConst(0, 64)))
+		ts := Var(name+".timeSec", BVS(64))
+		tn := Var(name+".timeNsec", BVS(64))
+		// block height is a positive int64; block time lies between 1970 and 2262 (so that UnixNano() is representable)
+		e.pc = append(e.pc, BVCmp("bvsgt", h, BVConst(0, 64)), BVCmp("bvult", ts, BVConst(9223372036, 64)), BVCmp("bvult", tn, billion))
 		root := w.newMS(nil)
 		if name != "ctx" {
 			root.label = name + ":"
@@ -214,15 +216,15 @@ func init() {
 		e.pc = append(e.pc, BVCmp("bvuge", rev, BVConst(1, 64)))
 		cid := Concat(StrConst("chain-"), e.decUF(rev))
 		w.chainRev[cid] = rev
-		return &CtxVal{ms: root, height: h, timeNs: t, chainID: cid, flags: map[string]*T{}, vals: map[string]Value{}}
+		return &CtxVal{ms: root, height: h, timeSec: ts, timeNsec: tn, chainID: cid, flags: map[string]*T{}, vals: map[string]Value{}}
 	})
 	reg("github.com/cosmos/cosmos-sdk/types.UnwrapSDKContext", func(e *Engine, fn *ssa.Function, a []Value) Value { return ctxOf(a[0]) })
 	reg(sc+"BlockHeight", pure(func(e *Engine, c *CtxVal, a []Value) Value { return c.height }))
-	reg(sc+"BlockTime", pure(func(e *Engine, c *CtxVal, a []Value) Value { return &TimeVal{Ns: c.timeNs} }))
+	reg(sc+"BlockTime", pure(func(e *Engine, c *CtxVal, a []Value) Value { return &TimeVal{Sec: c.timeSec, Nsec: c.timeNsec} }))
 	reg(sc+"ChainID", pure(func(e *Engine, c *CtxVal, a []Value) Value { return c.chainID }))
 	reg(sc+"Context", pure(func(e *Engine, c *CtxVal, a []Value) Value { return c }))
 	reg(sc+"WithBlockHeight", pure(func(e *Engine, c *CtxVal, a []Value) Value { n := c.clone(); n.height = a[1].(*T); return n }))
-	reg(sc+"WithBlockTime", pure(func(e *Engine, c *CtxVal, a []Value) Value { n := c.clone(); n.timeNs = a[1].(*TimeVal).Ns; return n }))
+	reg(sc+"WithBlockTime", pure(func(e *Engine, c *CtxVal, a []Value) Value { n := c.clone(); tv := a[1].(*TimeVal); n.timeSec, n.timeNsec = tv.Sec, tv.Nsec; return n }))
 	reg(sc+"WithChainID", pure(func(e *Engine, c *CtxVal, a []Value) Value { n := c.clone(); n.chainID = a[1].(*T); return n }))
 	reg(sc+"WithEventManager", pure(func(e *Engine, c *CtxVal, a []Value) Value { return c }))
 	reg(sc+"WithGasMeter", pure(func(e *Engine, c *CtxVal, a []Value) Value { n := c.clone(); n.gas = a[1]; return n }))
